@@ -61,6 +61,18 @@ TABLE = {
     "mutants/reverts/revert_3daf52d.patch": ["C17"],
     "mutants/reverts/revert_f8ae736.patch": ["C17"],
     "mutants/reverts/revert_7a75e14.patch": ["C17"],
+    "mutants/reverts/revert_5a63092.patch": ["C11"],
+    "mutants/reverts/revert_674e2b9.patch": ["C11"],
+    "mutants/reverts/revert_eaed16f.patch": ["C11"],  # found in the thorough tier (random case 318999)
+    "mutants/reverts/revert_16a16ea.patch": ["C14"],
+    "mutants/reverts/revert_0ea4899.patch": ["C14"],
+    "mutants/reverts/revert_99cee7e.patch": ["C14"],
+    "mutants/reverts/revert_46feb51.patch": ["C14"],
+    "mutants/reverts/revert_c0fdb46.patch": ["C08"],
+    "mutants/reverts/revert_4e3f686.patch": ["C20"],
+    "mutants/reverts/revert_5c2ad9f.patch": ["C11", "C12"],
+    "mutants/reverts/revert_963b41b.patch": ["C16"],
+    "mutants/reverts/revert_8a24bd9.patch": ["C08"],
     "mutants/socks_udp_relay_not_rearmed_after_mapped_name.patch": ["C17"],  # revert of 1e41e7e alone does not compile (1368b87 builds on it)
     "mutants/reverts/revert_1368b87.patch": ["C17"],
     "mutants/tcp_inflight_not_released_on_drop.patch": ["C06"],
@@ -87,6 +99,18 @@ for d, props in (("agent_out/http/mutants", None), ("agent_out/proxy/mutants", [
             elif f.startswith("res_"): p = ["C14"]
         if p:
             TABLE.setdefault(os.path.join(d, f), p)
+
+
+# independently seeded changes: property from meta.json
+import glob as _glob
+for _m in sorted(_glob.glob(os.path.join(ROOT, "seeded", "*", "meta.json"))):
+    try:
+        _d = json.load(open(_m))
+    except Exception:
+        continue
+    _rel = os.path.relpath(os.path.join(os.path.dirname(_m), "patch.diff"), ROOT)
+    if os.path.exists(os.path.join(ROOT, _rel)):
+        TABLE.setdefault(_rel, [_d["property"]])
 
 
 def run_one(job):
